@@ -72,7 +72,7 @@ PROPS = {
         "case_sets": ["parse", "lex", "walk"],
         "ops": ["PARSE", "PARSEV", "SCAN", "SPLIT", "WALK"],
         "oracle_clauses": [r"c12-.*"],
-        "lean_targets": ["PqlModel.Props.C12"],
+        "lean_targets": ["PqlModel.Props.C12", "PqlModel.Props.C12Fuel"],
         "facts": [],
         "rule": "every case of the lexer, parser and walk sets runs under recover and a 3 s watchdog, including pathological "
                 "nesting of brackets, calls, indexes, signs, joins and error cascades up to a few KiB; non-trivial = distinct input",
@@ -157,6 +157,30 @@ PROPS = {
                 "compared with the loop model and with the whole-input specification; non-trivial = distinct (script, mode)",
         "assumptions": ["bufio, file opening, partial writes and terminal detection are OS plumbing: modelled as in Model/Cli.lean"],
     },
+    "C02": {
+        "case_sets": ["eval"],
+        "ops": ["EVAL"],
+        "oracle_clauses": [r"c02-.*", r"c05-parse", r"c05-name-capture", r"unreadable-.*"],
+        "lean_targets": ["PqlModel.Props.C02"],
+        "facts": ["canAttachSortFalse"],
+        "rule": "EVAL: every sequence of up to 3 (quick) / 4 (thorough) of the eleven operators with fixed small arguments, a corpus of "
+                "order-sensitive pipelines and random generated pipelines over tables T U V; the emitted SQL is evaluated by the "
+                "reference SQL evaluator and compared (as lists: columns, names, rows, order) with the left-to-right pipeline "
+                "interpreter on 4 small databases per case (duplicates, ties, NULLs, empty tables); non-trivial = distinct pipeline that compiles",
+        "assumptions": ["derived tables keep their order unless re-sorted (engine convention shared by both evaluators)",
+                        "aggregates other than count/sum/min/max and unknown functions are uninterpreted (symbolic terms)"],
+    },
+    "C03": {
+        "case_sets": ["eval"],
+        "ops": ["EVAL"],
+        "oracle_clauses": [r"c03-.*", r"c05-parse", r"unreadable-.*"],
+        "lean_targets": ["PqlModel.Props.C03"],
+        "facts": ["joinTypes", "leftJoinTableAlias", "rightJoinTableAlias"],
+        "rule": "EVAL on pipelines with joins: all three kinds, bare / explicit / mixed conditions, operators before the join, "
+                "multi-operator right sides, nested and sequential joins (depth <= 2 random, corpus of shapes); evaluated as for C02; "
+                "non-trivial = distinct pipeline with at least one join that compiles",
+        "assumptions": ["as C02; equalities between the two sides are plain '=' in ON (ClickHouse restriction), compared under is-TRUE"],
+    },
 }
 
 
@@ -166,6 +190,8 @@ def nontrivial(op, lhs, impl):
         return (head.isdigit() and int(head) >= 2) or "TokenError" in impl
     if op == "SPLIT":
         return (head.isdigit() and int(head) >= 2) or "3b" in lhs
+    if op == "EVAL":
+        return head == "OK"
     if op in ("COMPILE", "COMPILE2"):
         return head == "OK" or op == "COMPILE2"
     if op == "QUOTE":
